@@ -269,7 +269,8 @@ def c20_symbolic(cfg):
         # sympy-matrix input in Hermitian mode whose term of order `order` is not Hermitian
         N = 2
         order = cfg["order"]
-        lam = sympy.Symbol("l0", real=True)
+        # the perturbative symbol with and without a reality assumption (the coefficient matrices decide, not the symbol)
+        lam = sympy.Symbol("l0", real=True) if cfg.get("lam_real", True) else sympy.Symbol("l0")
         a, b, c = sympy.symbols("a b c", real=True)
         good = sympy.Matrix([[a, b + sympy.I * c], [b - sympy.I * c, -a]])
         # definitely non-Hermitian for every value of the symbols (sympy must be able to refute Hermiticity)
@@ -474,6 +475,7 @@ def configs(tier):
     for order in (1, 2, 3):
         for how in ("real_asym", "complex_diag"):
             S(kind="nonhermitian_symbolic_term", hermitian=True, order=order, how=how)
+            S(kind="nonhermitian_symbolic_term", hermitian=True, order=order, how=how, lam_real=False)
     for which in ("custom_solver_and_fully_diagonalize", "eigenvectors_and_indices", "pairs_in_hermitian_mode", "mask_array_with_multiple_blocks",
                   "implicit_symbolic", "legacy_solver_nonhermitian", "blocks_and_subspaces", "zero_h0", "mask_not_ndarray", "wrong_type",
                   "custom_solver_single_block", "custom_solver_single_block_nonhermitian"):
